@@ -189,7 +189,7 @@ int main(int argc, char **argv) {
                 v = vh_malloc((size_t) len + 1); mkval(v, vid, len);
             }
             if (a >= 1 && a <= NK && strcmp(op, "rmidx")) { kb = vh_malloc((size_t) keylen[a]); memcpy(kb, keyname[a], (size_t) keylen[a]); }
-            vh_watchdog(2);
+            vh_watchdog(6);
             errno = 0;
             vh_call_begin();
             if (inject) { if (inj_at) vh_fail_at = kk; else vh_fail_from = kk; }
